@@ -414,7 +414,9 @@ fn ids(v: &Value) -> BTreeSet<u64> {
 }
 
 /// Compare the real chain with the model projection; push mismatches.
-fn compare(w: &World, chain: &Chain, proj: &Value, step: usize, mism: &mut Vec<Value>, deep: bool) {
+/// `obs` receives differences in behaviour that no listed property speaks about (body tail, adapter
+/// notifications): recorded in the evidence, never a violation.
+fn compare(w: &World, chain: &Chain, proj: &Value, step: usize, mism: &mut Vec<Value>, obs_only: &mut Vec<Value>, deep: bool) {
 	let mut bad = |what: &str, exp: Value, obs: Value| {
 		mism.push(json!({"step": step, "what": what, "expected": exp, "observed": obs}));
 	};
@@ -474,7 +476,7 @@ fn compare(w: &World, chain: &Chain, proj: &Value, step: usize, mism: &mut Vec<V
 	if let Some(t) = proj["tail"].as_i64() {
 		let obs = chain.tail().map(|x| x.height as i64).unwrap_or(-1);
 		if obs != t {
-			bad("tail", json!(t), json!(obs));
+			obs_only.push(json!({"step": step, "what": "tail", "expected": t, "observed": obs}));
 		}
 	}
 	let exp_orph = ids(&proj["orph"]);
@@ -565,6 +567,7 @@ fn replay_one(beh: &Value, dir: &str, deep_every: bool, twin: bool) -> Value {
 		panic!("templated node is not at the trunk head");
 	}
 	let mut mism: Vec<Value> = vec![];
+	let mut obs_only: Vec<Value> = vec![];
 	let steps = beh["steps"].as_array().unwrap();
 	let mut classes = vec![];
 	for (i, s) in steps.iter().enumerate() {
@@ -602,7 +605,7 @@ fn replay_one(beh: &Value, dir: &str, deep_every: bool, twin: bool) -> Value {
 						.map(|e| json!({"b": e["b"], "st": e["st"], "fp": if e["st"] == "next" { Value::Null } else { e["fp"].clone() }}))
 						.collect();
 					if obs != expv {
-						mism.push(json!({"step": i, "what": "notifications", "expected": expv, "observed": obs}));
+						obs_only.push(json!({"step": i, "what": "notifications", "expected": expv, "observed": obs}));
 					}
 				}
 				match r {
@@ -739,7 +742,7 @@ fn replay_one(beh: &Value, dir: &str, deep_every: bool, twin: bool) -> Value {
 			break;
 		}
 		let last = i + 1 == steps.len();
-		compare(&w, chain.as_ref().unwrap(), &s["proj"], i, &mut mism, last || deep_every);
+		compare(&w, chain.as_ref().unwrap(), &s["proj"], i, &mut mism, &mut obs_only, last || deep_every);
 		if !mism.is_empty() {
 			break; // first divergence: later steps would only echo it
 		}
@@ -778,7 +781,7 @@ fn replay_one(beh: &Value, dir: &str, deep_every: bool, twin: bool) -> Value {
 	}
 	drop(chain);
 	let _ = std::fs::remove_dir_all(dir);
-	json!({"steps": steps.len(), "classes": classes, "mismatches": mism, "twin": twin_checked})
+	json!({"steps": steps.len(), "classes": classes, "mismatches": mism, "twin": twin_checked, "observations": obs_only})
 }
 
 fn replay(args: &Args) -> i32 {
